@@ -339,9 +339,10 @@ def parse_fn_block(lines, i, tname=''):
             elif w[0] == 'attr':
                 spec.setdefault('attrs', []).append(d[len('attr'):].strip())
                 cur = None
-            elif w[0] == 'subst-all':
-                mm = re.match(r'subst-all\s+"(.*?)"\s+=>\s+"(.*)"$', d)
-                spec.setdefault('substs_all', []).append((mm.group(1), mm.group(2)))
+            elif w[0] in ('subst-all', 'subst-all?'):
+                # subst-all? : every occurrence, none is fine too (a rewrite of a std call the function may or may not make)
+                mm = re.match(r'subst-all\??\s+"(.*?)"\s+=>\s+"(.*)"$', d)
+                spec.setdefault('substs_all', []).append((mm.group(1), mm.group(2), w[0].endswith('?')))
                 cur = None
             elif w[0] == 'subst':
                 mm = re.match(r'subst\s+"(.*?)"\s+=>\s+"(.*)"$', d)
@@ -713,9 +714,9 @@ class Gen:
             p0 = it['start'] + body_text.index(old_t)
             eds.append((p0, p0 + len(old_t), new_t, 'R15', None))
             self.report['rules_applied']['R15'] = self.report['rules_applied'].get('R15', 0) + 1
-        for (old_t, new_t) in spec.get('substs_all', []):
+        for (old_t, new_t, zero_ok) in spec.get('substs_all', []):
             body_text = text[it['start']:it['end']]
-            if body_text.count(old_t) < 1:
+            if body_text.count(old_t) < 1 and not zero_ok:
                 raise LostAnchor('subst-all source "%s" does not occur in %s' % (old_t, sel))
             st_ = 0
             while True:
